@@ -178,14 +178,18 @@ Definition save (s : proc) : saved :=
 Definition enter (s : proc) : proc :=
   set_in Null (set_err Null (set_out Null (set_nullr false (set_nullw false s)))).
 
-(* OutputSuppressionContext.restore: dup2 every saved descriptor back, install sys.__stdout__ /
-   sys.__stderr__, the previous sys.stdin and the previous logging level *)
-Definition restore (sv : saved) (s : proc) : proc :=
-  set_logd (sv_logd sv)
-    (set_in (sv_in sv) (set_err Std (set_out Std
-      (set_fds (if sv_fd0 sv then true else fd0 s)
-               (if sv_fd1 sv then true else fd1 s)
-               (if sv_fd2 sv then true else fd2 s) s)))).
+(* OutputSuppressionContext.restore (run by the execution thread when it leaves the context, or by
+   the calling thread after the grace join on the time-out path): dup2 every saved descriptor back,
+   install sys.__stdout__ / sys.__stderr__ and the previous sys.stdin *)
+Definition osc_restore (sv : saved) (s : proc) : proc :=
+  set_in (sv_in sv) (set_err Std (set_out Std
+    (set_fds (if sv_fd0 sv then true else fd0 s)
+             (if sv_fd1 sv then true else fd1 s)
+             (if sv_fd2 sv then true else fd2 s) s))).
+(* TestCaseExecutor.execute, calling thread, after the result / time-out handling: hand the previous
+   logging.disable level back *)
+Definition restore_logging (sv : saved) (s : proc) : proc := set_logd (sv_logd sv) s.
+Definition restore (sv : saved) (s : proc) : proc := restore_logging sv (osc_restore sv s).
 
 Definition exec_test (e : env) (t : list act) (s : proc) : proc * list outcome :=
   let s1 := make_deterministic e s in
@@ -195,11 +199,33 @@ Definition exec_test (e : env) (t : list act) (s : proc) : proc * list outcome :
 
 Definition result (e : env) (t : list act) (s : proc) : list outcome := snd (exec_test e t s).
 
-(* what Pynguin does between executions: run another test, or use its own generator *)
-Inductive item := Exec (t : list act) | PynDraw.
+(* The time-out path of TestCaseExecutor.execute: the first join expires while the code under test has
+   performed [t1]; the calling thread then waits in the grace join, during which the condemned thread
+   still performs [t2]; only afterwards the calling thread runs OutputSuppressionContext.restore and
+   hands the logging level back.  The result carries no outcomes (ExecutionResult(timeout=True)). *)
+Definition exec_timeout (e : env) (t1 t2 : list act) (s : proc) : proc :=
+  let s1 := make_deterministic e s in
+  let sv := save s1 in
+  let s2 := fst (run_stmts e t1 (enter s1)) in
+  let s3 := fst (run_stmts e t2 s2) in
+  restore_logging sv (osc_restore sv s3).
+
+(* a different placement (NOT the code's): the logging level is handed back right after the first
+   join, before the grace join *)
+Definition exec_timeout_early_logging (e : env) (t1 t2 : list act) (s : proc) : proc :=
+  let s1 := make_deterministic e s in
+  let sv := save s1 in
+  let s2 := restore_logging sv (fst (run_stmts e t1 (enter s1))) in
+  let s3 := fst (run_stmts e t2 s2) in
+  osc_restore sv s3.
+
+(* what Pynguin does between executions: run another test (to completion or into a time-out), or
+   use its own generator *)
+Inductive item := Exec (t : list act) | ExecTimeout (t1 t2 : list act) | PynDraw.
 Definition item_step (e : env) (s : proc) (i : item) : proc :=
   match i with
   | Exec t => fst (exec_test e t s)
+  | ExecTimeout t1 t2 => exec_timeout e t1 t2 s
   | PynDraw => let (x, k) := pyn_rng s in set_pyn (x, S k) s
   end.
 Definition run_items (e : env) (s : proc) (l : list item) : proc := fold_left (item_step e) l s.
@@ -247,7 +273,7 @@ Fixpoint check_steps (e : env) (s : proc) (l : list obs_step) : bool :=
   | [] => true
   | (i, (os, s_obs)) :: r =>
       let s' := item_step e s i in
-      let os' := match i with Exec t => result e t s | PynDraw => [] end in
+      let os' := match i with Exec t => result e t s | _ => [] end in
       outcomes_eqb os os' && proc_eqb s' s_obs && check_steps e s' r
   end.
 
